@@ -1270,7 +1270,8 @@ impl DragonboxFloat for f32 {
 
         let r = umul96_lower64(two_f, *pow5);
         let parity = (r >> (64 - beta)) & 1;
-        let is_integer = r >> (32 - beta);
+        // Only the 32 bits below the parity bit are the fractional part.
+        let is_integer = (r >> (32 - beta)) as u32;
         (parity != 0, is_integer == 0)
     }
 
